@@ -136,7 +136,7 @@ def assignment_scenarios(ctx):
                 ok = isinstance(got, dict) and type_exact_eq(got, sp1) and job.id == want_id and os.path.isdir(os.path.join(root, "workspace", want_id))
                 if not ok:
                     coll_to_none = new is None and isinstance(old, (list, dict)) and route != "setitem"
-                    pyeq = old == new and route != "setitem"
+                    pyeq = isinstance(got, dict) and got == sp1 and route != "setitem"     # equal under ==, not as JSON values
                     sig = ("assign:nested-collection-to-None-ignored" if coll_to_none else
                            "assign:python-equal-value-of-other-json-type-ignored" if pyeq else
                            "assign:%s:%s-to-%s" % (route, type(old).__name__, type(new).__name__))
